@@ -724,6 +724,17 @@ class World:
         return x
 
 
+def fmt_script(labels):
+    """script with repeated labels compressed: e e e -> e*3"""
+    out = []
+    for lab in labels:
+        if out and out[-1][0] == lab:
+            out[-1][1] += 1
+        else:
+            out.append([lab, 1])
+    return " ".join(l if c == 1 else "%s*%d" % (l, c) for l, c in out)
+
+
 def run_schedule(paths, cores, batch_size, script=(), kills=None, chooser=None, **budget):
     """-> (outcome, out_text, detail, chooser, world)"""
     ch = chooser or ScriptChooser(script)
